@@ -24,6 +24,20 @@ Proof.
   - intro H. exists x. split; [exact H|apply Z.eqb_refl].
 Qed.
 
+Lemma active_app_msgs (pre : list msg) (rest : list event) :
+  active (map Msg pre ++ rest) = pre ++ active rest.
+Proof. induction pre as [|a t IH]; cbn [map app active]; [reflexivity|rewrite IH; reflexivity]. Qed.
+
+Lemma in_prefix_active (pre : list msg) (rest : list event) (m : msg) :
+  In m pre -> In m (active (map Msg pre ++ rest)).
+Proof. intro H. rewrite active_app_msgs. apply in_or_app. left; exact H. Qed.
+
+Lemma in_active_in (h : list event) (m : msg) : In m (active h) -> In (Msg m) h.
+Proof.
+  induction h as [|e t IH]; cbn [active]; [intros []|].
+  destruct e as [x|]; [|intros []]. intros [<-|H]; [left; reflexivity|right; apply IH, H].
+Qed.
+
 (* the fault-type constants are pairwise distinct (re-checked against the regenerated file) *)
 Lemma fault_constants_distinct :
   FaultLeaderIdleness <> FaultLeaderMistake /\ FaultLeaderIdleness <> FaultLeaderImpersonation /\
@@ -332,8 +346,9 @@ Theorem impersonation_fault_names_actual_sender :
   forall c h f,
     In f (faults_of_result (follower c h)) -> ftype f = FaultLeaderImpersonation ->
     exists lid m,
-      leader_id c = Some lid /\ In (Msg m) h /\
+      leader_id c = Some lid /\ In m (active h) /\    (* a message of the active phase *)
       culprit f = m_op m /\                         (* blamed: the authenticated sender *)
+      valid_membership (f_seats c) (m_sender m) (m_op m) = true /\
       nth_error (f_seats c) (N.to_nat (N.modulo (m_sender m + 255) 256)) = Some (m_op m) /\
       m_sender m <> lid /\                          (* who did not use the leader's index *)
       m_coord m = true /\ m_block m = f_block c /\ m_wallet m = f_wallet c.
@@ -348,12 +363,13 @@ Proof.
     cbn [idle_fault ftype] in Hty. congruence. }
   destruct (in_faults_of_prefix c lid pre f Hpre) as [m [Hm Hfm]].
   exists lid, m. split; [reflexivity|]. split.
-  { rewrite E. apply in_or_app. left. apply in_map. exact Hm. }
+  { rewrite E. apply in_prefix_active. exact Hm. }
   unfold fault_of in Hfm.
   destruct (impersonates c lid m) eqn:Hi.
   - destruct Hfm as [<-|[]]. cbn [culprit].
-    unfold impersonates, on_topic, authentic, valid_membership in Hi.
+    unfold impersonates, on_topic, authentic in Hi.
     repeat rewrite andb_true_iff in Hi. destruct Hi as [[[[[Hc Hv] Hb] Hw] _] Hs].
+    split; [reflexivity|]. split; [exact Hv|]. unfold valid_membership in Hv.
     apply Z.eqb_eq in Hb. apply N.eqb_eq in Hw.
     destruct (nth_error (f_seats c) (N.to_nat ((m_sender m + 255) mod 256))) as [o|] eqn:En; [|discriminate].
     apply N.eqb_eq in Hv. subst o.
@@ -495,13 +511,19 @@ Definition spec_prop (c : cfg) (h : list event) (o : obs) : Prop :=
          o_err o = false /\
          culprits_of FaultLeaderIdleness (o_faults o) = [] /\
          Permutation (culprits_of FaultLeaderImpersonation (o_faults o))
-                     (map m_op (filter (impersonates c lid) pre))) /\
+                     (map m_op (filter (impersonates c lid) pre)) /\
+         culprits_of FaultLeaderMistake (o_faults o) =
+           map (fun _ => f_leader c) (filter (mistaken c lid) pre) /\
+         (forall f, In f (o_faults o) -> known_fault f = true)) /\
     (o_pid o = None ->
        o_err o = true /\
        culprits_of FaultLeaderIdleness (o_faults o) = [f_leader c] /\
        (forall m, In m (active h) -> acceptable c lid m = true -> from_self c m = true) /\
        Permutation (culprits_of FaultLeaderImpersonation (o_faults o))
-                   (map m_op (filter (impersonates c lid) (active h)))).
+                   (map m_op (filter (impersonates c lid) (active h))) /\
+       culprits_of FaultLeaderMistake (o_faults o) =
+         map (fun _ => f_leader c) (filter (mistaken c lid) (active h)) /\
+       (forall f, In f (o_faults o) -> known_fault f = true)).
 
 Theorem spec_ok_sound : forall c h o, spec_ok c h o = true -> spec_prop c h o.
 Proof.
@@ -511,21 +533,25 @@ Proof.
   destruct (o_pid o) as [p|] eqn:Ep.
   - split; [|discriminate]. intros p' Ep'. inversion Ep'; subst p'.
     destruct (before_pid p (active h)) as [[pre m]|] eqn:Eb; [|discriminate].
-    repeat rewrite andb_true_iff in H. destruct H as [[[Hacc Herr] Hidle] Himp].
+    repeat rewrite andb_true_iff in H. destruct H as [[[[[Hacc Herr] Hidle] Himp] Hmis] Hkn].
     destruct (before_pid_spec p (active h) pre m Eb) as [post [E1 [E2 _]]].
     exists pre, m, post. split; [exact E1|]. split; [exact E2|]. split; [exact Hacc|].
     split; [destruct (o_err o); [discriminate|reflexivity]|].
     split; [apply listN_eqb_eq; exact Hidle|].
-    apply sortN_eq_perm. apply listN_eqb_eq. exact Himp.
+    split; [apply sortN_eq_perm; apply listN_eqb_eq; exact Himp|].
+    split; [apply listN_eqb_eq; exact Hmis|].
+    rewrite forallb_forall in Hkn. exact Hkn.
   - split; [discriminate|]. intros _.
-    repeat rewrite andb_true_iff in H. destruct H as [[[Herr Hidle] Hnone] Himp].
-    split; [exact Herr|]. split; [apply listN_eqb_eq; exact Hidle|]. split.
+    repeat rewrite andb_true_iff in H. destruct H as [[[[[Herr Hidle] Hnone] Himp] Hmis] Hkn].
+    split; [exact Herr|]. split; [apply listN_eqb_eq; exact Hidle|]. split; [|split; [|split]].
     + intros m Hm Ha. apply negb_true_iff in Hnone.
       destruct (from_self c m) eqn:Es; [reflexivity|]. exfalso.
       assert (existsb (fun m0 => acceptable c lid m0 && negb (from_self c m0)) (active h) = true) as Hex.
       { apply existsb_exists. exists m. split; [exact Hm|]. rewrite Ha, Es. reflexivity. }
       rewrite Hex in Hnone. discriminate.
     + apply sortN_eq_perm. apply listN_eqb_eq. exact Himp.
+    + apply listN_eqb_eq. exact Hmis.
+    + rewrite forallb_forall in Hkn. exact Hkn.
 Qed.
 
 Lemma culprits_app (t : Z) (a b : list fault) : culprits_of t (a ++ b) = culprits_of t a ++ culprits_of t b.
@@ -559,6 +585,37 @@ Proof.
     destruct (Z.eqb_spec FaultLeaderMistake FaultLeaderIdleness) as [E|_]; [symmetry in E; contradiction|reflexivity].
 Qed.
 
+Lemma impersonates_not_mistaken (c : cfg) (lid : N) (m : msg) :
+  impersonates c lid m = true -> mistaken c lid m = false.
+Proof.
+  unfold impersonates, mistaken. destruct (on_topic c m); destruct (from_self c m);
+    destruct (N.eqb lid (m_sender m)); cbn; try discriminate; reflexivity.
+Qed.
+
+Lemma culprits_mis_prefix (c : cfg) (lid : N) (pre : list msg) :
+  culprits_of FaultLeaderMistake (faults_of_prefix c lid pre) =
+    map (fun _ => f_leader c) (filter (mistaken c lid) pre).
+Proof.
+  destruct fault_constants_distinct as [D1 [D2 D3]].
+  induction pre as [|m t IH]; [reflexivity|].
+  unfold faults_of_prefix in *. cbn [flat_map filter]. rewrite culprits_app, IH.
+  unfold fault_of. destruct (impersonates c lid m) eqn:Ei.
+  - rewrite (impersonates_not_mistaken c lid m Ei).
+    unfold culprits_of. cbn [filter ftype].
+    destruct (Z.eqb_spec FaultLeaderImpersonation FaultLeaderMistake) as [E|_]; [symmetry in E; contradiction|reflexivity].
+  - destruct (mistaken c lid m); [|reflexivity].
+    unfold culprits_of. cbn [filter ftype map culprit]. rewrite Z.eqb_refl. reflexivity.
+Qed.
+
+Lemma known_prefix (c : cfg) (lid : N) (pre : list msg) :
+  forallb known_fault (faults_of_prefix c lid pre) = true.
+Proof.
+  induction pre as [|m t IH]; [reflexivity|].
+  unfold faults_of_prefix in *. cbn [flat_map]. rewrite forallb_app, IH, andb_true_r.
+  unfold fault_of. destruct (impersonates c lid m); [|destruct (mistaken c lid m)]; cbn [forallb]; try reflexivity;
+    unfold known_fault; cbn [ftype]; rewrite Z.eqb_refl, ?orb_true_r; reflexivity.
+Qed.
+
 Lemma listN_eqb_refl (l : list N) : listN_eqb l l = true.
 Proof. apply listN_eqb_eq. reflexivity. Qed.
 
@@ -583,10 +640,6 @@ Proof.
   - apply (IH Ht x Hx Hp).
 Qed.
 
-Lemma active_app_msgs (pre : list msg) (rest : list event) :
-  active (map Msg pre ++ rest) = pre ++ active rest.
-Proof. induction pre as [|a t IH]; cbn [map app active]; [reflexivity|rewrite IH; reflexivity]. Qed.
-
 (* every output of the model passes the executable property *)
 Theorem model_outputs_pass_spec :
   forall c h o, pids_ok (active h) = true ->
@@ -602,23 +655,215 @@ Proof.
     rewrite before_pid_first; [|reflexivity|].
     + assert (Hacc : acceptable c lid m = true).
       { unfold accepts in Ha. apply andb_true_iff in Ha. tauto. }
-      rewrite Hacc, culprits_idle_prefix, culprits_imp_prefix, !listN_eqb_refl. reflexivity.
+      rewrite Hacc, culprits_idle_prefix, culprits_imp_prefix, culprits_mis_prefix, known_prefix,
+        !listN_eqb_refl. reflexivity.
     + intros x Hx Hp. pose proof (pids_ok_earlier pre m (active post) Hpid x Hx Hp) as Em.
       subst x. rewrite (Hna m Hx) in Ha. discriminate.
   - rewrite E, (follow_times_out c lid pre post Hna) in Ho. cbn [obs_of] in Ho.
     inversion Ho; subst o. cbn [o_panic o_pid o_faults o_err negb andb].
     rewrite E, active_app_msgs. cbn [active]. rewrite app_nil_r.
-    rewrite !culprits_app, culprits_idle_prefix, culprits_imp_prefix.
+    rewrite !culprits_app, culprits_idle_prefix, culprits_imp_prefix, culprits_mis_prefix.
+    rewrite forallb_app, known_prefix.
     destruct fault_constants_distinct as [D1 [D2 D3]].
-    unfold culprits_of at 1 2. cbn [idle_fault filter ftype map culprit].
-    rewrite Z.eqb_refl.
+    unfold culprits_of at 1 2 3. cbn [idle_fault filter ftype map culprit forallb]. unfold known_fault at 1.
+    cbn [ftype]. rewrite Z.eqb_refl.
     destruct (Z.eqb_spec FaultLeaderIdleness FaultLeaderImpersonation) as [Ee|_]; [contradiction|].
-    cbn [map app culprit filter]. Show. rewrite app_nil_r, N.eqb_refl, listN_eqb_refl. cbn [listN_eqb andb].
-    rewrite andb_true_r. apply negb_true_iff.
+    destruct (Z.eqb_spec FaultLeaderIdleness FaultLeaderMistake) as [Ee|_]; [contradiction|].
+    cbn [map app culprit filter idle_fault orb andb]. rewrite !app_nil_r, !listN_eqb_refl.
+    rewrite !andb_true_r. cbn [andb]. apply negb_true_iff.
     destruct (existsb (fun m => acceptable c lid m && negb (from_self c m)) pre) eqn:Ex; [|reflexivity].
     apply existsb_exists in Ex. destruct Ex as [x [Hx Hax]].
     unfold accepts in Hna. rewrite (Hna x Hx) in Hax. discriminate.
   - rewrite E, (follow_blocks c lid pre Hna) in Ho. discriminate.
+Qed.
+
+(* ------------------------------------------------------------------ *)
+(* further theorems of the property                                    *)
+(* ------------------------------------------------------------------ *)
+
+(* the leader's valid proposal, in words *)
+Definition leaders_valid_proposal (c : cfg) (lid : N) (m : msg) : Prop :=
+  m_coord m = true /\ m_sender m = lid /\
+  valid_membership (f_seats c) (m_sender m) (m_op m) = true /\
+  m_block m = f_block c /\ m_wallet m = f_wallet c /\ In (m_action m) (f_allowed c) /\
+  ~ In (m_sender m) (f_self c).
+
+Theorem accepts_iff :
+  forall c lid m, accepts c lid m = true <-> leaders_valid_proposal c lid m.
+Proof.
+  intros c lid m. unfold accepts, acceptable, on_topic, authentic, from_self, leaders_valid_proposal.
+  repeat rewrite andb_true_iff. rewrite negb_true_iff, Z.eqb_eq, !N.eqb_eq, memZ_In.
+  split.
+  - intros [[[[[[Hc Hv] Hb] Hw] Hs] Ha] Hself]. repeat split; auto.
+    intro Hin. apply memN_In in Hin. rewrite Hin in Hself. discriminate.
+  - intros [Hc [Hs [Hv [Hb [Hw [Ha Hself]]]]]]. repeat split; auto.
+    destruct (memN (m_sender m) (f_self c)) eqn:Em; [|reflexivity].
+    exfalso. apply Hself. apply memN_In. exact Em.
+Qed.
+
+Theorem first_valid_proposal_is_accepted :
+  forall c lid pre m post,
+    leader_id c = Some lid ->
+    (forall x, In x pre -> accepts c lid x = false) -> accepts c lid m = true ->
+    follower c (map Msg pre ++ Msg m :: post) = Accepted (m_pid m) (faults_of_prefix c lid pre).
+Proof. intros c lid pre m post Hl Hna Ha. unfold follower. rewrite Hl. apply follow_accepts; assumption. Qed.
+
+Lemma fault_of_types (c : cfg) (lid : N) (m : msg) (f : fault) :
+  In f (fault_of c lid m) ->
+  (f = {| culprit := m_op m; ftype := FaultLeaderImpersonation |} /\ impersonates c lid m = true) \/
+  (f = {| culprit := f_leader c; ftype := FaultLeaderMistake |} /\ mistaken c lid m = true).
+Proof.
+  unfold fault_of. destruct (impersonates c lid m); [intros [<-|[]]; left; split; reflexivity|].
+  destruct (mistaken c lid m); [intros [<-|[]]; right; split; reflexivity|intros []].
+Qed.
+
+(* every fault owed by a message of the processed prefix is recorded *)
+Lemma prefix_faults_recorded (c : cfg) (lid : N) (pre : list msg) (rest : list event) (m : msg) (f : fault) :
+  leader_id c = Some lid -> (forall x, In x pre -> accepts c lid x = false) ->
+  In m pre -> In f (fault_of c lid m) ->
+  In f (faults_of_result (follower c (map Msg pre ++ rest))).
+Proof.
+  intros Hl Hna Hm Hf. unfold follower. rewrite Hl. rewrite (follow_prefix c lid pre rest Hna).
+  assert (Hin : In f (faults_of_prefix c lid pre)).
+  { unfold faults_of_prefix. apply in_flat_map. exists m. split; assumption. }
+  destruct (follow c lid rest []) eqn:Ef; cbn [add_faults faults_of_result];
+    try (apply in_or_app; left; exact Hin).
+  exfalso. exact (follow_not_panic c lid rest [] Ef).
+Qed.
+
+Theorem leader_mistakes_are_recorded :
+  forall c lid pre rest m,
+    leader_id c = Some lid ->
+    (forall x, In x pre -> accepts c lid x = false) ->
+    In m pre -> mistaken c lid m = true ->
+    In {| culprit := f_leader c; ftype := FaultLeaderMistake |}
+       (faults_of_result (follower c (map Msg pre ++ rest))).
+Proof.
+  intros c lid pre rest m Hl Hna Hm Hmis.
+  apply (prefix_faults_recorded c lid pre rest m _ Hl Hna Hm).
+  unfold fault_of. destruct (impersonates c lid m) eqn:Ei.
+  - rewrite (impersonates_not_mistaken c lid m Ei) in Hmis. discriminate.
+  - rewrite Hmis. left; reflexivity.
+Qed.
+
+Lemma result_fault_origin (c : cfg) (lid : N) (h : list event) (f : fault) :
+  In f (faults_of_result (follow c lid h [])) ->
+  (exists m, In m (active h) /\ In f (fault_of c lid m)) \/
+  (f = idle_fault c /\ exists fs, follow c lid h [] = TimedOut fs).
+Proof.
+  intro Hin.
+  destruct (history_shape c lid h) as [pre m post E Hna Ha|pre post E Hna|pre E Hna].
+  - rewrite E, (follow_accepts c lid pre m post Hna Ha) in Hin. cbn [faults_of_result] in Hin.
+    destruct (in_faults_of_prefix c lid pre f Hin) as [x [Hx Hfx]].
+    left. exists x. split; [rewrite E; apply in_prefix_active; exact Hx|exact Hfx].
+  - rewrite E, (follow_times_out c lid pre post Hna) in Hin. cbn [faults_of_result] in Hin.
+    apply in_app_or in Hin. destruct Hin as [Hin|[<-|[]]].
+    + destruct (in_faults_of_prefix c lid pre f Hin) as [x [Hx Hfx]].
+      left. exists x. split; [rewrite E; apply in_prefix_active; exact Hx|exact Hfx].
+    + right. split; [reflexivity|]. rewrite E, (follow_times_out c lid pre post Hna). eexists; reflexivity.
+  - rewrite E, (follow_blocks c lid pre Hna) in Hin. cbn [faults_of_result] in Hin.
+    destruct (in_faults_of_prefix c lid pre f Hin) as [x [Hx Hfx]].
+    left. exists x. split; [|exact Hfx]. rewrite E, <- (app_nil_r (map Msg pre)). apply in_prefix_active; exact Hx.
+Qed.
+
+(* a recorded mistake is the leader's: an authentic message under the leader's identifier, for
+   this window and wallet, received in the active phase, proposing a disallowed action *)
+Theorem mistake_fault_names_leader :
+  forall c h f, (length (f_seats c) <= 255)%nat ->
+    In f (faults_of_result (follower c h)) -> ftype f = FaultLeaderMistake ->
+    culprit f = f_leader c /\
+    exists lid m,
+      leader_id c = Some lid /\ In m (active h) /\
+      m_sender m = lid /\ valid_membership (f_seats c) (m_sender m) (m_op m) = true /\
+      m_op m = f_leader c /\
+      m_coord m = true /\ m_block m = f_block c /\ m_wallet m = f_wallet c /\
+      ~ In (m_action m) (f_allowed c).
+Proof.
+  intros c h f Hlen Hin Hty. unfold follower in Hin.
+  destruct (leader_id c) as [lid|] eqn:Hl; [|cbn in Hin; contradiction].
+  destruct fault_constants_distinct as [D1 [D2 D3]].
+  destruct (result_fault_origin c lid h f Hin) as [[m [Hm Hf]]|[-> _]];
+    [|cbn [idle_fault ftype] in Hty; congruence].
+  destruct (fault_of_types c lid m f Hf) as [[-> _]|[-> Hmis]]; [cbn [ftype] in Hty; congruence|].
+  split; [reflexivity|]. exists lid, m. split; [reflexivity|]. split; [exact Hm|].
+  unfold mistaken, on_topic, authentic in Hmis. repeat rewrite andb_true_iff in Hmis.
+  destruct Hmis as [[[[[[Hc Hv] Hb] Hw] _] Hs] Hact].
+  apply N.eqb_eq in Hs. apply Z.eqb_eq in Hb. apply N.eqb_eq in Hw.
+  split; [symmetry; exact Hs|]. split; [exact Hv|].
+  split; [rewrite <- Hs in Hv; exact (valid_membership_lid c lid _ Hlen Hl Hv)|].
+  split; [exact Hc|]. split; [symmetry; exact Hb|]. split; [symmetry; exact Hw|].
+  intro Hina. apply memZ_In in Hina. rewrite Hina in Hact. discriminate.
+Qed.
+
+(* idleness is recorded exactly when the routine gives up, and against the leader *)
+Theorem idleness_fault_only_on_timeout :
+  forall c h f,
+    In f (faults_of_result (follower c h)) -> ftype f = FaultLeaderIdleness ->
+    culprit f = f_leader c /\ exists fs, follower c h = TimedOut fs.
+Proof.
+  intros c h f Hin Hty. unfold follower in *.
+  destruct (leader_id c) as [lid|] eqn:Hl; [|cbn in Hin; contradiction].
+  destruct fault_constants_distinct as [D1 [D2 D3]].
+  destruct (result_fault_origin c lid h f Hin) as [[m [Hm Hf]]|[-> Hto]]; [|split; [reflexivity|exact Hto]].
+  destruct (fault_of_types c lid m f Hf) as [[-> _]|[-> _]]; cbn [ftype] in Hty; congruence.
+Qed.
+
+(* once the routine returned nothing later matters: later messages are not consumed *)
+Theorem result_final :
+  forall c h ext,
+    match follower c h with
+    | Blocked _ => True
+    | r => follower c (h ++ ext) = r
+    end.
+Proof.
+  intros c h ext. unfold follower. destruct (leader_id c) as [lid|]; [|reflexivity].
+  destruct (history_shape c lid h) as [pre m post E Hna Ha|pre post E Hna|pre E Hna]; rewrite E.
+  - rewrite <- app_assoc. cbn [app].
+    rewrite (follow_accepts c lid pre m post Hna Ha), (follow_accepts c lid pre m (post ++ ext) Hna Ha). reflexivity.
+  - rewrite <- app_assoc. cbn [app].
+    rewrite (follow_times_out c lid pre post Hna), (follow_times_out c lid pre (post ++ ext) Hna). reflexivity.
+  - rewrite (follow_blocks c lid pre Hna). exact I.
+Qed.
+
+Lemma has_timeout_msgs (pre : list msg) : has_timeout (map Msg pre) = false.
+Proof. induction pre as [|a t IH]; cbn [map has_timeout]; [reflexivity|exact IH]. Qed.
+
+(* the routine returns by the end of the active phase at the latest *)
+Theorem returns_when_phase_ends :
+  forall c h, In (f_leader c) (f_seats c) -> has_timeout h = true ->
+    (exists p fs, follower c h = Accepted p fs) \/ (exists fs, follower c h = TimedOut fs).
+Proof.
+  intros c h Hin Hto. unfold follower.
+  destruct (leader_id c) as [lid|] eqn:Hl; [|apply leader_id_none in Hl; contradiction].
+  destruct (history_shape c lid h) as [pre m post E Hna Ha|pre post E Hna|pre E Hna].
+  - left. rewrite E, (follow_accepts c lid pre m post Hna Ha). eexists; eexists; reflexivity.
+  - right. rewrite E, (follow_times_out c lid pre post Hna). eexists; reflexivity.
+  - rewrite E, has_timeout_msgs in Hto. discriminate.
+Qed.
+
+(* the main statement in the form restated in Props/C24.v *)
+Theorem returned_proposal_is_leaders_valid_proposal :
+  forall c h pid fs, (length (f_seats c) <= 255)%nat ->
+    follower c h = Accepted pid fs ->
+    exists lid pre m post,
+      h = map Msg pre ++ Msg m :: post /\ m_pid m = pid /\
+      lowest_seat c lid /\ m_sender m = lid /\
+      valid_membership (f_seats c) (m_sender m) (m_op m) = true /\ m_op m = f_leader c /\
+      m_coord m = true /\ m_block m = f_block c /\ m_wallet m = f_wallet c /\
+      In (m_action m) (f_allowed c) /\ ~ In (m_sender m) (f_self c) /\
+      (forall x, In x pre -> acceptable c lid x && negb (from_self c x) = false) /\
+      fs = flat_map (fault_of c lid) pre.
+Proof.
+  intros c h pid fs Hlen H. unfold follower in H.
+  destruct (leader_id c) as [lid|] eqn:Hl; [|discriminate].
+  destruct (history_shape c lid h) as [pre m post E Hna Ha|pre post E Hna|pre E Hna].
+  - rewrite E, (follow_accepts c lid pre m post Hna Ha) in H. inversion H; subst pid fs.
+    destruct (accepts_sound c lid m Hlen Hl Ha) as [A1 [A2 [A3 [A4 [A5 [A6 [A7 [A8 A9]]]]]]]].
+    apply accepts_iff in Ha. destruct Ha as [_ [_ [Hv _]]].
+    exists lid, pre, m, post. repeat split; try assumption; try reflexivity;
+      try (destruct A3 as [B1 [B2 B3]]; assumption).
+  - rewrite E, (follow_times_out c lid pre post Hna) in H. discriminate.
+  - rewrite E, (follow_blocks c lid pre Hna) in H. discriminate.
 Qed.
 
 (* the hypotheses are satisfiable: a concrete history (seats 2,1,3,1 -- leader 1 backs members
@@ -626,13 +871,15 @@ Qed.
 Example follower_example :
   let c := {| f_seats := [2; 1; 3; 1]%N; f_self := [1]%N; f_leader := 1%N; f_block := 900;
               f_wallet := 1%N; f_allowed := [3; 0] |} in
-  let mk s o a p := Msg {| m_coord := true; m_sender := s; m_op := o; m_block := 900;
-                           m_wallet := 1%N; m_action := a; m_pid := p |} in
-  follower c [mk 3 3 3 1; mk 4 1 3 2; mk 2 3 3 3; mk 2 1 1 4; mk 2 1 3 5; Timeout]%N =
+  let mk (s o : N) (a : Z) (p : N) :=
+    Msg {| m_coord := true; m_sender := s; m_op := o; m_block := 900;
+           m_wallet := 1%N; m_action := a; m_pid := p |} in
+  follower c [mk 3%N 3%N 3 1%N; mk 4%N 1%N 3 2%N; mk 2%N 3%N 3 3%N; mk 2%N 1%N 1 4%N;
+              mk 2%N 1%N 3 5%N; Timeout] =
     Accepted 5%N [ {| culprit := 3%N; ftype := FaultLeaderImpersonation |};
                    {| culprit := 1%N; ftype := FaultLeaderImpersonation |};
                    {| culprit := 1%N; ftype := FaultLeaderMistake |} ] /\
-  follower c [mk 3 3 3 1; Timeout; mk 2 1 3 5]%N =
+  follower c [mk 3%N 3%N 3 1%N; Timeout; mk 2%N 1%N 3 5%N] =
     TimedOut [ {| culprit := 3%N; ftype := FaultLeaderImpersonation |};
                {| culprit := 1%N; ftype := FaultLeaderIdleness |} ].
 Proof. vm_compute. split; reflexivity. Qed.
